@@ -3,6 +3,7 @@ package main
 import (
 	"encoding/json"
 	"fmt"
+	"hash/fnv"
 	"os"
 	"path/filepath"
 	"regexp"
@@ -44,11 +45,16 @@ type parserWorld struct {
 }
 
 // kernelCode renders the code blocks as calls into the simulation kernel.
-func kernelCode(recv string, withState bool) gen.CodeFunc {
+func kernelCode(recv string, withState, viaHelper bool) gen.CodeFunc {
 	return func(s gen.SiteInfo) string {
 		st := "nil"
 		if withState {
 			st = recv + ".state"
+			if viaHelper {
+				// user code often hands the whole context to a helper; the block's
+				// own text then never mentions the store
+				st = "verifStore(" + recv + ")"
+			}
 		}
 		args := fmt.Sprintf("%s.globalStore, %d, %s.pos.line, %s.pos.col, %s.pos.offset, %s.text, %s", recv, s.Site, recv, recv, recv, recv, st)
 		for _, l := range s.Labels {
@@ -80,7 +86,18 @@ func newGenParser(name string, g *gen.Grammar, flags []string) *genParser {
 	gp.HasState = g.HasKind(gen.State)
 	withState := gp.HasState || !gp.Optimized
 	hdr := "{\npackage " + name + "\n\nimport k \"verifsim/kernel\"\n}"
-	gp.Text = g.Print(gen.PrintOptions{Header: hdr, Code: kernelCode(gp.Receiver, withState)})
+	// a third of the parsers reach the store through a helper function
+	hh := fnv.New32a()
+	hh.Write([]byte(name))
+	for _, f := range flags {
+		hh.Write([]byte(f))
+	}
+	hh.Write([]byte(fmt.Sprint(len(g.Rules), len(g.Sites))))
+	viaHelper := withState && hh.Sum32()%3 == 0
+	if viaHelper {
+		hdr = "{\npackage " + name + "\n\nimport k \"verifsim/kernel\"\n\nfunc verifStore(x *current) map[string]any { return x.state }\n}"
+	}
+	gp.Text = g.Print(gen.PrintOptions{Header: hdr, Code: kernelCode(gp.Receiver, withState, viaHelper)})
 	return gp
 }
 
@@ -93,6 +110,9 @@ const glueTemplate = `package %[1]s
 
 import (
 	"bytes"
+	"os"
+	"path/filepath"
+	"sync"
 
 	"verifsim/kernel"
 	"verifsim/parsersim"
@@ -111,6 +131,8 @@ func init() {
 		G:           func() any { return %[8]s },
 	})
 }
+
+var verifFileOnce sync.Once
 
 // Option values kept and re-applied (single-client campaigns only).
 var verifMaxExprOpts = map[uint64]Option{}
@@ -161,7 +183,22 @@ func verifParse(filename string, input []byte, o *parsersim.Opts, ctx *kernel.Ct
 		}
 %[7]s
 	}()
-	if o.UseReader {
+	if o.UseFile {
+		verifFileOnce.Do(func() {
+			d, e := os.MkdirTemp(os.Getenv("VERIF_PF_DIR"), "pf-")
+			if e != nil {
+				panic(e)
+			}
+			if e := os.Chdir(d); e != nil {
+				panic(e)
+			}
+		})
+		os.MkdirAll(filepath.Dir(filename), 0o755)
+		if e := os.WriteFile(filename, input, 0o644); e != nil {
+			panic(e)
+		}
+		val, err = ParseFile(filename, opts...)
+	} else if o.UseReader {
 		val, err = ParseReader(filename, bytes.NewReader(input), opts...)
 	} else {
 		val, err = Parse(filename, input, opts...)
@@ -217,6 +254,8 @@ func (gp *genParser) glue() string {
 
 // buildParserWorld generates, instruments and links the given parsers.
 func buildParserWorld(scratch, pigeonBin string, specs []*genParser, race bool) *parserWorld {
+	os.MkdirAll(filepath.Join(scratch, "pf"), 0o755)
+	os.Setenv("VERIF_PF_DIR", filepath.Join(scratch, "pf"))
 	dir := filepath.Join(scratch, "pw")
 	if race {
 		dir = filepath.Join(scratch, "pw-race")
